@@ -1,3 +1,4 @@
+import Cdecao.Props.C03F11
 import Cdecao.Engine.Core
 import Cdecao.Engine.BabOpt
 import Cdecao.Proofs.NodeSpecAsm
